@@ -55,6 +55,7 @@ func c15(r *core.Report) {
 	c15Escape(r, scope)
 	c15Pool(r)
 	c15CacheKey(r)
+	c15Publish(r, scope)
 }
 
 // globalRoot: the package-level variable an address or container value is rooted at (through field,
@@ -1033,6 +1034,77 @@ func c15CacheKey(r *core.Report) {
 		}
 		if n == 0 {
 			r.Trivial("cachekey:none", "-", "no store into a package-level sync.Map (the compiled-pattern cache is only ever filled by CompareAndSwap against nil, which never stores for an absent key)")
+		}
+	})
+}
+
+// c15Publish: an object handed to other goroutines through a package-level map is complete when it
+// is stored there. A field assigned after the store is written while readers that found the entry
+// already use it (and outside whatever lock guarded the store).
+func c15Publish(r *core.Report, scope []*ssa.Function) {
+	p := r.Prog
+	r.RunRule("C15.publish", "publish after construction: for every store of a pointer into a package-level map in the concurrently used code, no field of the pointed-to object is assigned on a path that continues from the store (the object is built first, then published)", 1, func() {
+		perFn := map[string]int{}
+		for _, fn := range scope {
+			for _, b := range fn.Blocks {
+				for i, in := range b.Instrs {
+					mu, ok := in.(*ssa.MapUpdate)
+					if !ok {
+						continue
+					}
+					g, ok := globalRoot(mu.Map, 0)
+					if !ok || g == nil {
+						continue
+					}
+					if _, isPtr := mu.Value.Type().Underlying().(*types.Pointer); !isPtr {
+						continue
+					}
+					name := shortFn(fn)
+					perFn[name]++
+					key := fmt.Sprintf("publish:%s/%s#%d", name, g.Name(), perFn[name])
+					// aliases of the published pointer: the value itself, phis it flows into, loads of the cell it came from
+					alias := map[ssa.Value]bool{mu.Value: true}
+					if ld, ok := mu.Value.(*ssa.UnOp); ok {
+						if al, ok := ld.X.(*ssa.Alloc); ok && al.Referrers() != nil {
+							for _, ref := range *al.Referrers() {
+								if l2, ok := ref.(*ssa.UnOp); ok && l2.Op == token.MUL {
+									alias[l2] = true
+								}
+							}
+						}
+					}
+					if mu.Value.Referrers() != nil {
+						for _, ref := range *mu.Value.Referrers() {
+							if ph, ok := ref.(*ssa.Phi); ok {
+								alias[ph] = true
+							}
+						}
+					}
+					bad := ""
+					for _, b2 := range fn.Blocks {
+						for j, in2 := range b2.Instrs {
+							st, ok := in2.(*ssa.Store)
+							if !ok {
+								continue
+							}
+							fa, ok := st.Addr.(*ssa.FieldAddr)
+							if !ok || !alias[fa.X] {
+								continue
+							}
+							after := (b2 == b && j > i) || (b2 != b && reaches(b, b2))
+							if after {
+								_, f := fieldNames(fa.X.Type(), fa.Field)
+								bad = fmt.Sprintf("field %s is assigned at %s", f, p.Pos(st.Pos()))
+							}
+						}
+					}
+					if bad != "" {
+						r.Bad(key, p.Pos(mu.Pos()), fmt.Sprintf("the object stored into the package-level map %s is still being built: %s, after the store — a goroutine that looks the entry up in between gets the unfinished object (and the later write races with its reads)", g.Name(), bad))
+					} else {
+						r.OK(key, p.Pos(mu.Pos()), "the object is complete when it is published")
+					}
+				}
+			}
 		}
 	})
 }
